@@ -8,7 +8,8 @@ import warnings
 import numpy as np
 
 
-def toy_model(D=0.1, E=0.06, lam=0.1, T0=1.0, a=3.0, u=1.0):
+def toy_model(D=0.1, E=0.06, lam=0.1, T0=1.0, a=3.0, u=1.0, hsq=0.0):
+    """hsq: field-independent + hsq (T0 u)^2 T^2 in the free energy (heavy species in the bath): the symmetric phase is then not conformal (cs^2 != 1/3)"""
     import WallGo
 
     class ToyPotential(WallGo.EffectivePotential):
@@ -19,7 +20,8 @@ def toy_model(D=0.1, E=0.06, lam=0.1, T0=1.0, a=3.0, u=1.0):
         def evaluate(self, fields, temperature):
             phi = fields.getField(0)
             T = np.asarray(temperature)
-            return D * (T ** 2 - (T0 * self.unit) ** 2) * phi ** 2 - E * T * phi ** 3 + lam / 4 * phi ** 4 - a * T ** 4
+            return (D * (T ** 2 - (T0 * self.unit) ** 2) * phi ** 2 - E * T * phi ** 3 + lam / 4 * phi ** 4 - a * T ** 4
+                    + hsq * (T0 * self.unit) ** 2 * T ** 2)
 
     class ToyModel(WallGo.GenericModel):
         fieldCount = 1
